@@ -276,7 +276,11 @@ func TestC06Bindings(t *testing.T) {
 		for _, b := range scope {
 			final[b.name] = b.t
 		}
-		for i, n := 0, rapid.IntRange(0, 5).Draw(rt, "nlets"); i < n; i++ {
+		nlets := rapid.IntRange(0, 5).Draw(rt, "nlets")
+		if rapid.IntRange(0, 14).Draw(rt, "manylets") == 0 {
+			nlets = rapid.IntRange(8, 16).Draw(rt, "manyletsn")
+		}
+		for i, n := 0, nlets; i < n; i++ {
 			name := rapid.SampledFrom([]string{"n", "lim", "v", "w", "p1", "k", "m"}).Draw(rt, "letname")
 			ty := rapid.SampledFrom(bindTypes).Draw(rt, "lettype")
 			x, shape := letValue(rt, g, ty, scope)
